@@ -241,6 +241,27 @@ fn run(ctx: &Ctx, report: &mut Report) {
             }
         }
     }
+    // replicas held open by a store actor across both sessions (what an open replica keeps between
+    // operations must not change the outcome)
+    {
+        let s12 = states_from_subsets(&universe12(), 2);
+        for a in &s12 {
+            for b in &s12 {
+                if nontrivial_pair(a, b) && (!ctx.quick() || a.offered.len() + b.offered.len() <= 3) {
+                    exec_rc(report, a, b, DEFAULT_CFG, BackendKind::Actor, None);
+                    if !ctx.quick() {
+                        exec_rc(report, a, b, (1, 3), BackendKind::Actor, None);
+                    }
+                }
+            }
+        }
+        let flat = flat_states(if ctx.quick() { 5 } else { 8 });
+        for a in &flat {
+            for b in &flat {
+                exec_rc(report, a, b, (1, 3), BackendKind::Actor, None);
+            }
+        }
+    }
     let mut exec = |report: &mut Report, a: &State, b: &State, cfg: Cfg, backend: BackendKind| exec_rc(report, a, b, cfg, backend, None);
     match ctx.tier {
         Tier::Quick => {
